@@ -116,8 +116,14 @@ fn main() {
             // a replayed hang must not hang the replay
             let (tx, rx) = std::sync::mpsc::channel();
             let (c2, case2) = (ctx.clone(), v["case"].clone());
+            let concurrent = v["concurrent"].as_bool().unwrap_or(false);
+            let (site, class) = (v["site"].as_str().unwrap_or("").to_string(), v["class"].as_str().unwrap_or("").to_string());
+            if concurrent {
+                println!("REPLAY: concurrency-dependent failure: executing the recorded calls on 8 threads at the same time (up to 20 s)");
+            }
             std::thread::spawn(move || {
-                let _ = tx.send(replay_on_fresh_thread(&c2, replay, &prefix, &case2));
+                let r = if concurrent { replay_concurrently(&c2, replay, &prefix, &case2, &site, &class, 8, std::time::Duration::from_secs(20)) } else { replay_on_fresh_thread(&c2, replay, &prefix, &case2) };
+                let _ = tx.send(r);
             });
             let vs = match rx.recv_timeout(std::time::Duration::from_secs(120)) {
                 Ok(vs) => vs,
